@@ -459,6 +459,13 @@ func (c *connection) waitRead(n int) (err error) {
 	if dl := c.readDeadline; dl > 0 {
 		timeout := time.Duration(dl - time.Now().UnixNano())
 		if timeout <= 0 {
+			// a closed connection reports that it is closed, not that its stale deadline has passed
+			switch c.status(closing) {
+			case poller:
+				return Exception(ErrEOF, "wait read")
+			case user:
+				return Exception(ErrConnClosed, "wait read")
+			}
 			return Exception(ErrReadTimeout, c.remoteAddrString())
 		}
 		return c.waitReadWithTimeout(n, timeout)
